@@ -273,16 +273,22 @@ def closure_rules(model, R):
         if isinstance(s, ast.Assign) and isinstance(s.value, ast.Name) and s.value.id in ('prime', 'double', 'doubleprime'):
             regs[s.value.id] = sorted(src(t) for t in s.targets)
     for name in ('prime', 'double', 'doubleprime'):
-        R.check(regs.get(name) == sorted([f'{self_}.{name}', f'{self_}.BitSet.{name}']), 'WIRING', pw, pw.node,
-                f'closure {name} registered under its own name on the vectors and on their bit-set class',
-                f'{self_}.{name} = {self_}.BitSet.{name} = {name}', str(regs.get(name)))
+        got = regs.get(name) or []
+        R.check(f'{self_}.BitSet.{name}' in got, 'WIRING', pw, pw.node, f'closure {name} registered under its own name on the bit-set class',
+                f'{self_}.BitSet.{name} = {name}', str(got))
+        if name != 'doubleprime':   # Vectors.doubleprime is not used inside the package; Vectors.double is (Concept.join/meet)
+            R.check(f'{self_}.{name}' in got, 'WIRING', pw, pw.node, f'closure {name} registered under its own name on the vectors',
+                    f'{self_}.{name} = {name}', str(got))
     st = {}
     for s in pw.body:
         if isinstance(s, ast.Assign) and chain(s.targets[0]) and chain(s.targets[0])[0] == self_ and len(chain(s.targets[0])) == 2 \
                 and isinstance(s.value, ast.Name):
             st[chain(s.targets[0])[1]] = s.value.id
-    R.check(st.get('relation') == p_rel and st.get('relation_index') == p_idx, 'WIRING', pw, pw.node, '_pair_with records relation and index',
-            f'relation={p_rel}, relation_index={p_idx}', str({k: v for k, v in st.items() if k.startswith('relation')}))
+    rel_any = [s for s in pw.body if isinstance(s, ast.Assign) and chain(s.targets[0]) and chain(s.targets[0])[-1] == 'relation'
+               and chain(s.targets[0])[0] in (self_, other) and name_is(s.value, p_rel)]
+    # both families are paired with the same relation, so recording it on either partner reaches both
+    R.check(bool(rel_any) and st.get('relation_index') == p_idx, 'WIRING', pw, pw.node, '_pair_with records the relation and its own index',
+            f'relation={p_rel}, {self_}.relation_index={p_idx}', str({k: v for k, v in st.items() if k.startswith('relation')}))
 
 
 def relation_new(model, R):
